@@ -83,15 +83,39 @@ def check_tuple(ctx):
     ok = len(apps) == 1 and k(src(apps[0].args[0])) == '(propensity_object,delay_object,reaction_update_dict,delay_reaction_update_dict)' and \
         a[:6] == ['reaction_update_dict', 'propensity_object', 'propensity_param_dict', 'delay_reaction_update_dict', 'delay_object', 'delay_param_dict']
     ctx.ob('R3.2-tuple-positions', '_add_reaction', ok, ctx.loc('types', f), 'reaction_list entries are (propensity, delay, immediate dict, delayed dict)', '')
-    for fn, want in (('_create_vectors', 'prop_object,delay_object,update_array,delay_update_array=rxn'),
-                     ('_create_stochiometric_matrices', 'prop_object,delay_object,reaction_update_dict,delay_reaction_update_dict=self.reaction_list[reaction_index]')):
+    for fn in ('_create_vectors', '_create_stochiometric_matrices'):
         g = ctx.fn('types:Model.%s' % fn)
-        txt = [k(util.stmt_key(s)) for s in ast.walk(g) if isinstance(s, ast.stmt)]
-        unpack = [t for t in txt if t.endswith('=rxn') or t.endswith('=self.reaction_list[reaction_index]')]
-        ok = len(unpack) == 1 and len(unpack[0].split('=')[0].split(',')) == 4
-        if fn == '_create_vectors':
-            ok = ok and 'self.propensities.append(prop_object)' in txt and 'self.delays.append(delay_object)' in txt and unpack[0].startswith('prop_object,delay_object,')
-        ctx.ob('R3.2-tuple-positions', fn, ok, ctx.loc('types', g), '%s unpacks the 4 positions in the same order' % fn, str(unpack))
+        lp, ridx, rxn = reaction_loop(g)
+        names = unpack4(lp, rxn) if lp is not None else None
+        ok = names is not None
+        detail = str(names)
+        if ok and fn == '_create_vectors':
+            txt = [k(util.stmt_key(s)) for s in ast.walk(g) if isinstance(s, ast.stmt)]
+            ok = 'self.propensities.append(%s)' % names[0] in txt and 'self.delays.append(%s)' % names[1] in txt and \
+                "self.c_propensities.push_back(__cast__('void*',%s))" % names[0] in txt and "self.c_delays.push_back(__cast__('void*',%s))" % names[1] in txt
+        ctx.ob('R3.2-tuple-positions', fn, ok, ctx.loc('types', g), '%s unpacks the 4 positions (propensity, delay, immediate, delayed) in that order' % fn, detail)
+
+
+def reaction_loop(f):
+    """the loop over all reactions in f: (loop node, reaction-index name, text of the expression holding the reaction tuple)"""
+    for lp in [x for x in f.body if isinstance(x, ast.For)]:
+        it = k(src(lp.iter))
+        if it in ('range(num_reactions)', 'range(len(self.reaction_list))') and isinstance(lp.target, ast.Name):
+            return lp, lp.target.id, 'self.reaction_list[%s]' % lp.target.id
+        if it == 'enumerate(self.reaction_list)' and isinstance(lp.target, ast.Tuple) and len(lp.target.elts) == 2:
+            return lp, src(lp.target.elts[0]), src(lp.target.elts[1])
+        if it == 'self.reaction_list' and isinstance(lp.target, ast.Name):
+            return lp, None, lp.target.id
+    return None, None, None
+
+
+def unpack4(lp, rxn_text):
+    for s_ in lp.body:
+        if isinstance(s_, ast.Assign) and isinstance(s_.targets[0], ast.Tuple) and len(s_.targets[0].elts) == 4 and k(src(s_.value)) == k(rxn_text):
+            return [src(e) for e in s_.targets[0].elts]
+    if isinstance(lp.target, ast.Tuple) and len(lp.target.elts) == 4:
+        return [src(e) for e in lp.target.elts]
+    return None
 
 
 def check_matrices(ctx):
@@ -99,27 +123,42 @@ def check_matrices(ctx):
     where = ctx.loc('types', f)
     txt = [k(util.stmt_key(s)) for s in ast.walk(f) if isinstance(s, ast.stmt)]
     problems = []
-    for n in ['num_species=len(self.species2index.keys())', 'num_reactions=len(self.reaction_list)', 'self.update_array=np.zeros((num_species,num_reactions))',
-              'self.delay_update_array=np.zeros((num_species,num_reactions))',
-              'self.update_array[self.species2index[sp],reaction_index]=reaction_update_dict[sp]',
-              'self.delay_update_array[self.species2index[sp],reaction_index]=delay_reaction_update_dict[sp]']:
-        if n not in txt and n.replace('.keys()', '') not in txt:
-            problems.append('missing: %s' % n)
-    loops = [s for s in ast.walk(f) if isinstance(s, ast.For)]
-    its = sorted(k(src(l.iter)) for l in loops)
-    if its != sorted(['range(num_reactions)', 'reaction_update_dict', 'delay_reaction_update_dict']):
-        problems.append('loops over %s' % its)
-    for l in loops:
-        if k(src(l.iter)) == 'reaction_update_dict':
-            st = [x for x in ast.walk(l) if isinstance(x, ast.Assign)]
-            if len(st) != 1 or not k(src(st[0].targets[0])).startswith('self.update_array['):
-                problems.append('the immediate dictionary does not fill the immediate matrix')
-        if k(src(l.iter)) == 'delay_reaction_update_dict':
-            st = [x for x in ast.walk(l) if isinstance(x, ast.Assign)]
-            if len(st) != 1 or not k(src(st[0].targets[0])).startswith('self.delay_update_array['):
-                problems.append('the delayed dictionary does not fill the delayed matrix')
-        if any(isinstance(x, (ast.Break, ast.Continue)) for x in ast.walk(l)):
-            problems.append('a fill loop can skip entries')
+    shape = None
+    for n in txt:
+        for arr in ('update_array', 'delay_update_array'):
+            if n.startswith('self.%s=np.zeros((' % arr):
+                shape = n
+                dims = n[len('self.%s=np.zeros((' % arr):].rstrip(')').split(',')
+                asg = {x.split('=')[0]: x.split('=', 1)[1] for x in txt if '=' in x and x.split('=')[0].isidentifier()}
+                d = [asg.get(x, x) for x in dims[:2]]
+                if d[0] not in ('len(self.species2index.keys())', 'len(self.species2index)') or d[1] != 'len(self.reaction_list)':
+                    problems.append('%s allocated with shape (%s, %s)' % (arr, d[0], d[1]))
+    if len([n for n in txt if n.startswith('self.update_array=np.zeros((')]) != 1 or len([n for n in txt if n.startswith('self.delay_update_array=np.zeros((')]) != 1:
+        problems.append('the two matrices are not each allocated afresh once')
+    lp, ridx, rxn = reaction_loop(f)
+    names = unpack4(lp, rxn) if lp is not None else None
+    if lp is None or ridx is None or names is None:
+        problems.append('loop over all reactions with the 4-tuple unpacked not found')
+    else:
+        imm, dly = names[2], names[3]
+        for dic, arr in ((imm, 'self.update_array'), (dly, 'self.delay_update_array')):
+            inner = [x for x in lp.body if isinstance(x, ast.For) and k(src(x.iter)) in (dic, dic + '.keys()')]
+            if len(inner) != 1:
+                problems.append('no loop over the species of %s' % dic)
+                continue
+            il = inner[0]
+            sp_ = src(il.target)
+            stores = [x for x in ast.walk(il) if isinstance(x, (ast.Assign, ast.AugAssign))]
+            want = '%s[self.species2index[%s],%s]=%s[%s]' % (arr, sp_, ridx, dic, sp_)
+            if [k(util.stmt_key(x)) for x in stores] != [want]:
+                problems.append('fill of %s is %s, expected %s' % (arr, [util.stmt_key(x) for x in stores], want))
+            if any(isinstance(x, (ast.Break, ast.Continue)) for x in ast.walk(il)):
+                problems.append('a fill loop can skip entries')
+            for g in [x for x in ast.walk(il) if isinstance(x, ast.If)]:
+                if util.canon_test(g.test) not in ("''!=%s" % sp_,):
+                    problems.append('entries are filled under the condition %s' % src(g.test))
+        if any(isinstance(x, (ast.Break, ast.Continue)) for x in lp.body):
+            problems.append('the reaction loop can skip reactions')
     ctx.ob('R3.3-matrix-fill', '_create_stochiometric_matrices', not problems, where,
            'matrix[species2index[sp], r] = dict_r[sp] for every species of every reaction; fresh zero matrices of shape (species, reactions)', '; '.join(problems))
 
@@ -196,7 +235,8 @@ def check_init(ctx):
         lp = loops[0]
         ifs = [s for s in lp.body if isinstance(s, ast.If)]
         flag = None
-        if len(ifs) == 1 and k(src(ifs[0].test)) in ('np.isnan(self.params_values[i])', 'np.isnan(self.params_values[self.params2index[p]])'):
+        defs = util.single_defs(f)
+        if len(ifs) == 1 and k(src(util.inline(ifs[0].test, defs))) in ('np.isnan(self.params_values[self.params2index[p]])',):
             for s in ifs[0].body:
                 if isinstance(s, ast.Assign) and util.is_const(s.value, True):
                     flag = src(s.targets[0])
@@ -206,8 +246,8 @@ def check_init(ctx):
             tail = [s for s in f.body[f.body.index(lp) + 1:] if isinstance(s, ast.If)]
             if not tail or src(tail[0].test) != flag or not any(isinstance(x, ast.Raise) for x in tail[0].body):
                 problems.append('the flag does not lead to a raise')
-        if 'i=self.params2index[p]' not in [k(util.stmt_key(s)) for s in lp.body] and 'self.params_values[self.params2index[p]]' not in src(lp):
-            problems.append('the value tested is not that of the parameter')
+        if k(src(lp.target)) != 'p':
+            problems.append('the loop does not run over the parameter names')
         if any(isinstance(x, (ast.Break, ast.Continue, ast.Return)) for x in ast.walk(lp)):
             problems.append('the scan can stop early without raising')
     ctx.ob('R3.5-initialisation-check', 'check_parameters', not problems, ctx.loc('types', f), 'check_parameters raises whenever some parameter value is NaN', '; '.join(problems))
